@@ -27,6 +27,45 @@ def expectedSummaries : List String :=
    "field:pos++ read:+0 read:-1 type:LexOperator type:literal", "call:nextToken field:pos++ read:+0",
    "call:consumeInteger read:+0 type:literal", "call:fail", "call:fail"]
 
+/-- What every grammar function of grammar_parse.go does, as summarised by the extractor: the calls on the
+    parser / lexer in source order with the constant arguments of the token-consuming primitives — the
+    structure `Model/AspParse.lean` transcribes. -/
+def expectedParserCalls : List (String × String) := [
+  ("assert", "fail"),
+  ("assertTokenType", "fail"),
+  ("next", "Next assertTokenType"),
+  ("nextv", "Next fail"),
+  ("optional", "Peek Next"),
+  ("optionalv", "Peek Next"),
+  ("anythingBut", "Peek"),
+  ("oneof", "Next fail"),
+  ("oneofval", "Next fail"),
+  ("fail", ""),
+  ("parseStatement", "Peek Next next(EOL) assert Next next(EOL) assert Next next(EOL) parseFuncDef parseFor parseIf Next parseReturn Next parseExpression next(EOL) Next parseExpression optional(',') parseExpression next(EOL) parseIdentStatement parseExpression next(EOL)"),
+  ("parseStatements", "anythingBut(Unindent) parseStatement next(Unindent)"),
+  ("parseReturn", "anythingBut(EOL) parseExpression optional(',') next(EOL)"),
+  ("parseFuncDef", "nextv(\"def\") next(Ident) next('(') anythingBut(')') parseArgument optional(',') next(')') Peek next('-') next('>') oneofval next(':') next(EOL) Peek Next next(EOL) parseStatements"),
+  ("parseArgument", "next(Ident) Peek oneof(':','&','=') oneofval(\"bool\",\"str\",\"int\",\"list\",\"dict\",\"function\",\"config\") optional('|') Peek oneof('&','=') next(Ident) optional('&') Peek next('=') parseExpression"),
+  ("parseIf", "nextv(\"if\") parseExpressionInPlace next(':') next(EOL) parseStatements optionalv(\"elif\") parseExpressionInPlace next(':') next(EOL) parseStatements optionalv(\"else\") next(':') next(EOL) parseStatements"),
+  ("parseFor", "nextv(\"for\") parseIdentList nextv(\"in\") parseExpressionInPlace next(':') next(EOL) parseStatements"),
+  ("parseIdentList", "next(Ident) Peek Peek Next next(Ident)"),
+  ("parseExpression", "parseUnconditionalExpression parseInlineIf"),
+  ("parseExpressionInPlace", "Peek parseUnconditionalExpressionInPlace parseInlineIf"),
+  ("parseInlineIf", "optionalv(\"if\") parseExpression nextv(\"else\") parseExpression"),
+  ("parseUnconditionalExpression", "Peek parseUnconditionalExpressionInPlace"),
+  ("parseUnconditionalExpressionInPlace", "Peek Next Next parseValueExpression Peek Next Peek assert Next Peek Next parseUnconditionalExpression"),
+  ("parseValueExpression", "Peek parseFString Next Peek parseValueExpression assert assert Next Next Next Next parseList('[',']') parseList('(',')') parseDict parseLambda parseIdentExpr fail Peek parseSlice Peek optional('.') parseIdentExpr optional('(') parseCall"),
+  ("parseIdentStatement", "Peek next(Ident) assert Peek Next parseIdentList next('=') parseExpression parseExpression next(']') oneofval(\"=\",\"+=\") parseExpression parseExpression parseIdentExpr parseCall parseExpression assert parseExpression"),
+  ("parseIdentExpr", "next(Ident) Peek Peek Next parseIdentExpr parseCall"),
+  ("parseCall", "Peek Peek AssignFollows next(Ident) next('=') assert parseExpressionInPlace optional(',') next(')')"),
+  ("parseList", "next Peek Peek parseExpression optional(',') Peek assert parseComprehension next"),
+  ("parseDict", "next('{') Peek Peek parseExpressionInPlace next(':') parseExpressionInPlace optional(',') Peek assert parseComprehension next('}')"),
+  ("parseSlice", "next('[') optional(':') optional(':') parseExpression optional(':') Peek Next parseExpression next(']')"),
+  ("parseComprehension", "nextv(\"for\") parseIdentList nextv(\"in\") parseUnconditionalExpression optionalv(\"for\") parseIdentList nextv(\"in\") parseUnconditionalExpression optionalv(\"if\") parseUnconditionalExpression"),
+  ("parseLambda", "nextv(\"lambda\") Peek Peek Next optional('=') parseExpression optional(',') next(':') parseExpressionInPlace"),
+  ("parseFString", "next(String) findBrace findBrace assert"),
+  ("findBrace", "")]
+
 /-- Bytes the model dispatches on before it consults the byte classes. -/
 def fixedBytes : List Nat := [0, 13, 10, 35, 48, 49, 50, 51, 52, 53, 54, 55, 56, 57, 34, 39]
 
@@ -51,11 +90,13 @@ def FactsOK : Bool :=
   C19.addStackFrameReturnsError && C19.failOnlyPanics &&
   C19.lexFailDelegates == "param0" && C19.parserFailDelegates == "param0.Pos" &&
   C19.lexFailPosArgs.all (· == "pos") && C19.lexFailPosArgs.length == 5 &&
+  -- the grammar functions the parser model transcribes
+  C19.parserCalls == expectedParserCalls &&
   -- so the unchecked `err = r.(error)` in parseFileInput's recovery cannot itself panic
   (C19.recoverAssertion == "unchecked:error" || C19.recoverAssertion == "checked:error"))
 
 /-- Obligation a code change can break: the facts extracted from /repo satisfy the side condition. -/
-theorem C19_facts_ok : FactsOK = true := by decide
+theorem C19_facts_ok : FactsOK = true := by decide +kernel
 
 theorem C19_sentinels_ok : 2 ≤ C19.sentinels := by
   have h := C19_facts_ok
